@@ -126,13 +126,19 @@ func selfFkScenario(c *core.Ctx, idx int, prop string) {
 	if nullable {
 		kind = schema.FkIndexNullable
 	}
+	// every third case: deletes cascade along both fks (along reference cycles and self references too)
+	cascade := idx%3 == 2
+	pinKind := schema.FkIndex
+	if cascade {
+		kind, pinKind, nullable = schema.FkIndexCascade, schema.FkIndexCascade, false
+	}
 	nodes := &schema.StoreDef{Type: "nodes", BasePath: []string{"stores"},
 		Fields: []schema.Field{{Name: "label", Kind: schema.KStr}, {Name: "parent", Kind: schema.KStr, FK: "nodes"},
 			{Name: "children", Kind: schema.KList, FK: "nodes", Derived: true}, {Name: "pins", Kind: schema.KList, FK: "pins", Derived: true}},
 		FKs: []schema.FKDef{{Field: "parent", Target: "nodes", Kind: kind, BackRef: "children"}}}
 	pins := &schema.StoreDef{Type: "pins", BasePath: []string{"stores"},
 		Fields: []schema.Field{{Name: "node", Kind: schema.KStr, FK: "nodes"}},
-		FKs:    []schema.FKDef{{Field: "node", Target: "nodes", Kind: schema.FkIndex, BackRef: "pins"}}}
+		FKs:    []schema.FKDef{{Field: "node", Target: "nodes", Kind: pinKind, BackRef: "pins"}}}
 	sc := schema.Build([]*schema.StoreDef{nodes, pins})
 	path := c.TempFile("c04s")
 	db, err := sc.OpenDb(path)
@@ -210,6 +216,57 @@ func selfFkScenario(c *core.Ctx, idx int, prop string) {
 		for _, p := range raw.problems() {
 			c.Violationf(prop+" self-referencing store: "+p[0]+" after "+op+" ("+outcome+", "+shape+")", info, "%s", p[1])
 			break
+		}
+		if _, existed := raw0.nodeParent[id]; op == "delete-node" && outcome == "ok" && existed {
+			// exactly the entities that reference the deleted one (transitively) went with it under cascade; nothing
+			// else went under restrict, and then nothing referenced it
+			goneNodes, gonePins := map[string]bool{id: true}, map[string]bool{}
+			if cascade {
+				for grew := true; grew; {
+					grew = false
+					for n, parent := range raw0.nodeParent {
+						if !goneNodes[n] && parent != "" && goneNodes[parent] {
+							goneNodes[n], grew = true, true
+						}
+					}
+				}
+				for p, n := range raw0.pinNode {
+					if goneNodes[n] {
+						gonePins[p] = true
+					}
+				}
+			}
+			// the deleted node references a member of its own closure: a reference cycle or a self reference
+			cycle := raw0.nodeParent[id] != "" && goneNodes[raw0.nodeParent[id]]
+			if cascade {
+				c.Count("self_fk_cascade_deletes", 1)
+				if cycle {
+					c.Count("self_fk_cascade_deletes_over_a_cycle", 1)
+				}
+			}
+			var wrong []string
+			for n := range raw0.nodeParent {
+				if _, still := raw.nodeParent[n]; still == goneNodes[n] {
+					wrong = append(wrong, fmt.Sprintf("node %s: present=%v, in the cascade closure=%v", shortId(n), still, goneNodes[n]))
+				}
+			}
+			for p := range raw0.pinNode {
+				if _, still := raw.pinNode[p]; still == gonePins[p] {
+					wrong = append(wrong, fmt.Sprintf("pin %s: present=%v, in the cascade closure=%v", shortId(p), still, gonePins[p]))
+				}
+			}
+			sort.Strings(wrong)
+			if len(wrong) > 0 {
+				c.Violationf(prop+" self-referencing store: a delete removed other entities than "+map[bool]string{true: "its cascade closure", false: "the one named"}[cascade]+" ("+shape+")", info, "%v", wrong)
+			}
+			if !cascade {
+				for n, parent := range raw0.nodeParent {
+					if parent == id && n != id {
+						c.Violationf(prop+" self-referencing store: a referenced entity was deleted under restrict", info, "node %s referenced it", shortId(n))
+						break
+					}
+				}
+			}
 		}
 		if prop == "C06" && outcome == "ok" && (op == "delete-node" || op == "delete-pin") {
 			gone := id
